@@ -98,6 +98,47 @@ def py_parse(sk: Skeleton) -> ast.Module:
         raise AnalysisError(f"template skeleton of {sk.func.key()} does not parse after placeholder substitution: {e}")
 
 
+class Undecided(Exception):
+    """The template's text is not a single skeleton (unresolved conditional / unknown construction)."""
+
+
+def av_skeleton(sm: SourceModel, f: Func, args: dict | None = None) -> Skeleton:
+    """Skeleton of the text a template function returns, computed by the abstract value evaluator: helpers are
+    expanded, locals resolved to the function's parameters, indent / dedent applied.  Holes are written
+    ``{term}`` in ``raw`` and ``PH_term`` in ``text``."""
+    from . import av
+
+    A = av.AV(sm, inline=lambda callee: True)
+    val, _ = A.returned(f, args)
+    if av.has_unk(val):
+        raise Undecided(f"{f.key()}: the returned text is not understood ({av.find_all(val, 'unk')[0][1]})")
+    if val[0] == "if" or not av._is_str(val):
+        raise Undecided(f"{f.key()}: the returned text depends on {av.show(val[1]) if val[0] == 'if' else 'a non-string construction'}")
+    flat = av.flatten(val)
+    raw, text, ph = [], [], {}
+    i = 0
+    while i < len(flat):
+        j = flat.find(av.HO, i)
+        if j < 0:
+            raw.append(flat[i:])
+            text.append(flat[i:])
+            break
+        raw.append(flat[i:j])
+        text.append(flat[i:j])
+        k = flat.find(av.HC, j)
+        term = flat[j + 1: k]
+        name = _san(term)
+        ph[name] = term
+        raw.append("{" + term + "}")
+        text.append(name)
+        i = k + 1
+    txt = "".join(text)
+    for k, m in enumerate(re.findall(r"⟦[^⟧]*⟧", txt)):
+        ph[f"PH_loop_{k}"] = m
+        txt = txt.replace(m, f"PH_loop_{k}", 1)
+    return Skeleton(f, txt, ph, "".join(raw))
+
+
 class TemplateModel:
     def __init__(self, sm: SourceModel):
         self.sm = sm
@@ -121,11 +162,9 @@ class TemplateModel:
             f = self.mods.get(s2, {}).get(n2)
         return f
 
-    def skeleton(self, short: str, name: str) -> Skeleton:
+    def skeleton(self, short: str, name: str, args: dict | None = None) -> Skeleton:
+        """Resolved skeleton (see av_skeleton); raises Undecided when the text is not a single skeleton."""
         f = self.func(short, name)
         if f is None:
             raise AnalysisError(f"template function {short}::{name} not found")
-        sks = returned_skeletons(f)
-        if not sks:
-            raise AnalysisError(f"template function {short}::{name} returns no string skeleton")
-        return sks[-1]
+        return av_skeleton(self.sm, f, args)
